@@ -67,12 +67,12 @@ _parse = flowfilter.parse
 
 def _pool():
     atoms = sorted(ATOMS)
-    out = [[a] for a in atoms] + [["not", a] for a in atoms]
+    out = [[a] for a in atoms] + [["not", a] for a in ("err", "resp", "ws", "marked", "http")]
     x = 12345
     def nxt(n):
         nonlocal x
         x = (x * 1103515245 + 12345) % (1 << 31); return (x >> 8) % n
-    for _ in range(26):
+    for _ in range(12):
         a, b, c = atoms[nxt(9)], atoms[nxt(9)], atoms[nxt(9)]
         k = nxt(5)
         out.append([["and", a, b], ["or", a, b], ["and", a, "not", b], ["or", "not", a, "and", b, c], ["not", "or", a, b]][k])
@@ -157,12 +157,18 @@ class Check(PropertyCheck):
 
     # ------------------------------------------------------------------ generation
     def setup(self, tier):
+        # forked workers pay a few seconds of copy-on-write warm-up each; only worth it for the long tier
+        self.parallel = tier == "thorough"
         for pol in POOL: _parse(flt_str(pol)[0])
         try: _parse("~~")
         except ValueError: pass
+        # the parsed pyparsing grammars are millions of long-lived objects: keep the cyclic GC of the forked workers from
+        # traversing (and thereby copy-on-write duplicating) them on every full collection
+        import gc
+        gc.collect(); gc.freeze()
 
     def _rand_filter(self, rng, depth=0):
-        return rng.pick(POOL[:18]) if rng.chance(0.5) else rng.pick(POOL)
+        return rng.pick(POOL[:14]) if rng.chance(0.5) else rng.pick(POOL)
 
     def _rand_update(self, rng):
         r = rng.randint(0, 99)
@@ -267,16 +273,24 @@ class Check(PropertyCheck):
             yield [["hook", s, 0], ["edit", 0, "resp"], ["edit", 0, "ws"], ["hook", e, 0], ["hook", s, 1]]
 
     # ------------------------------------------------------------------ real code
+    _dir = None
+
     def _run(self, case):
-        root = os.path.join(WORK, "c39"); os.makedirs(root, exist_ok=True)
-        d = tempfile.mkdtemp(prefix="h", dir=root)
-        try:
-            return self._run_in(case, d)
-        finally:
+        # one scratch directory per worker process, reused (creating/removing trees is the expensive part)
+        pid = os.getpid()
+        if Check._dir is None or Check._dir[0] != pid:
+            root = os.path.join(WORK, "c39"); os.makedirs(root, exist_ok=True)
+            d = os.path.join(root, "p%d" % pid)
             shutil.rmtree(d, ignore_errors=True)
+            os.makedirs(os.path.join(d, "dir")); os.makedirs(os.path.join(d, "r2")); os.makedirs(os.path.join(d, "sub"))
+            Check._dir = (pid, d)
+        d = Check._dir[1]
+        for name in ("a", "sub/b", "r0", "r1", "r3"):
+            try: os.unlink(os.path.join(d, name))
+            except FileNotFoundError: pass
+        return self._run_in(case, d)
 
     def _run_in(self, case, d):
-        os.makedirs(os.path.join(d, "dir")); os.makedirs(os.path.join(d, "r2"))
         pathid = {"a": 0, "sub/b": 1, "r0": 10, "r1": 11, "r3": 13}
         flows = [make(t) for t in case["types"]]
         idx = {f.id: i for i, f in enumerate(flows)}
@@ -364,6 +378,9 @@ class Check(PropertyCheck):
                 meta.append(m)
             if sa.stream is not None:
                 sa.stream.fo.close()
+            # taddons.context leaves the master's logging handler installed (bound to a loop that is closed on exit)
+            try: tctx.master._legacy_log_events.uninstall()
+            except Exception: pass
         final = {pathid[n]: sorted(r) for n, r in recs.items() if r}
         lines.append("dump")
         return {"steps": steps, "meta": meta, "final": final}, lines
